@@ -736,8 +736,13 @@ def draw_flat_indices(draw, lengths, kmax=6):
 
 
 @st.composite
-def part_case(draw, max_traj=6, max_len=7):
+def part_case(draw, max_traj=6, max_len=7, narrow=False):
     shape, lengths = draw_lengths(draw, max_traj, max_len)
+    if narrow and shape not in ("single",) and draw(st.integers(0, 3)) > 0:
+        # mostly long trajectories: every length fits an 8-bit table, the running total of a few of them does not
+        lengths = [max(L, draw(st.integers(max_len // 2, max_len))) for L in lengths]
+        if all(x == lengths[0] for x in lengths) and shape != "equal" and len(lengths) > 1:
+            lengths[0] -= 1
     n = sum(lengths)
     ncl = draw(st.integers(1, 6))
     dmode = draw(st.sampled_from(["quarters", "tenths"]))
@@ -745,7 +750,8 @@ def part_case(draw, max_traj=6, max_len=7):
             "assign": int_list(draw, 0, ncl - 1, n),
             "dists": [x / (4.0 if dmode == "quarters" else 10.0) for x in int_list(draw, 0, 60, n)],
             "center_idx": draw_flat_indices(draw, lengths),
-            "lengths_as": draw(st.sampled_from(["list", "int64", "int32", "tuple"])),
+            "lengths_as": draw(st.sampled_from(["int8", "uint8", "uint8", "int16", "uint16"] if narrow else
+                                               ["list", "int64", "int32", "tuple"])),
             "idx_as": draw(st.sampled_from(["list", "array", "np_ints"])),
             "adtype": draw(st.sampled_from(["int64", "int32"])),
             "ddtype": draw(st.sampled_from(["float64", "float32"]))}
@@ -1160,6 +1166,11 @@ CLAUSES = [
     Clause("part_concat", part_case(), run_part_concat, quick=400, thorough=8000),
     Clause("part_bad_lengths", bad_lengths_case(), run_part_bad_lengths, quick=300, thorough=5000,
            doc="lengths that do not add up to the number of frames are refused (equal and ragged routes alike)"),
+    Clause("part_index_narrow_lengths", part_case(max_traj=8, max_len=120, narrow=True), run_part_index, quick=250,
+           thorough=5000, doc="trajectory lengths held in an int8 / uint8 / int16 / uint16 array: every length fits the "
+                              "type, the running total (beyond 127 / 255 for most cases) need not"),
+    Clause("part_values_narrow_lengths", part_case(max_traj=8, max_len=120, narrow=True), run_part_values, quick=150,
+           thorough=3000),
     Clause("part_large", part_case(max_traj=25, max_len=40), run_part_index, quick=0, thorough=1500),
     Clause("frames_files", frames_files_case(), run_frames_files, quick=60, thorough=1600),
     Clause("find_centers", find_case(), run_find, quick=500, thorough=10000),
